@@ -1,3 +1,4 @@
+import Witverif.Async.ExecTag
 /-
 Trace events of the async runtime harness (harness/rt-native, engine `script`): one constructor
 per token the harness can write.  The runtime models (`Waitable`, `Subtask`, `Script`) *emit*
@@ -38,6 +39,8 @@ inductive Ev
   | endTok (leak : Option Int) (errs : Nat)
   -- anything else (ledger anomalies `…!reason`, host traps `!trap:…`)
   | other (s : String)
+  -- tokens of engine `exec` (C22/C23): executor, spawn, wakers, unit stream — see ExecTag.lean
+  | x (t : XTag) (ns : List Nat)
 deriving DecidableEq, Repr
 
 def b01 (b : Bool) : String := if b then "1" else "0"
@@ -62,6 +65,7 @@ def Ev.toTok : Ev → String
   | .cb .exit => "cb=exit" | .cb .yield => "cb=yield" | .cb (.wait s) => s!"cb=wait:{s}"
   | .endTok none errs => s!"end:?:{errs}" | .endTok (some l) errs => s!"end:{l}:{errs}"
   | .other s => s
+  | .x t ns => t.fmt ns
 
 /-! ### Parsing a token back (total: what is not recognised becomes `.other`) -/
 
@@ -145,7 +149,7 @@ def Ev.ofTok (tok : String) : Ev :=
     | "end", [l, errs] =>
       if rs == s!":{l}:{errs}" then some (.endTok (some (Int.ofNat l)) errs)
       else if rs == s!":-{l}:{errs}" then some (.endTok (some (-(Int.ofNat l))) errs) else none
-    | _, _ => none
+    | _, _ => (XTag.parse nm nums rs).map fun (t, ns) => .x t ns
   -- accept only tokens that print back to themselves (round-trip guard of the protocol)
   match r with
   | some e => if e.toTok == tok then e else .other tok
